@@ -357,6 +357,9 @@ def check(P, R, tier):
            "dropped would count as an ACK. The only holder of the sender half is the reliable sender's Connection, which drops a pair "
            "only when the receiver half is already closed (C14.F2/F3), so no failing history exists while C14 passes.")
     rules(P, R)
+    # Q6: the threshold itself (C17, in particular the mempool committee's function and its agreement with consensus)
+    from ..common import fold as _fold
+    _fold(R, P, "c17", ("C17.O1", "C17.O2", "C17.O3", "C17.O4", "C17.O5", "C17.O6"), "C12.Q6", 12)
     # Q5: an acknowledgement is the peer's reply to THAT batch: handles resolve only through the FIFO ACK pairing of the
     # reliable sender's connection, which must not lose its alignment (C14.F1/F2/F4)
     from ..common import fold
